@@ -78,13 +78,18 @@ TABLE_FAMS = ("invgamma", "loginvgamma", "gamma", "beta")
 
 
 def gen_points(rng, n, with_zero=True):
+    """sorted distinct standard-normal points: 2/3 log-uniform in min(p, 1-p) over [1e-12, 1/2] (both tails),
+    1/3 uniform in p (the centre, where the Laplace branches meet), sometimes exactly 0"""
+    from scipy.stats import norm
     xs = set()
     while len(xs) < n:
         u = rng.random()
         if with_zero and u < 0.04:
             xs.add(0.0)
             continue
-        from scipy.stats import norm
+        if u < 0.36:
+            xs.add(float(norm.ppf(rng.uniform(0.02, 0.98))))
+            continue
         q = math.exp(rng.uniform(math.log(1e-12), math.log(0.5)))
         x = float(norm.ppf(q))
         xs.add(x if rng.random() < 0.5 else -x)
@@ -95,8 +100,9 @@ def _lu(rng, lo, hi):
     return float(math.exp(rng.uniform(math.log(lo), math.log(hi))))
 
 
-def gen_case(rng, fam, npts):
-    """structured, valid parameters over the documented ranges"""
+def gen_case(rng, fam, npts, k=None):
+    """structured, valid parameters over the documented ranges; `k` (case index) stratifies the variants of a family"""
+    k = rng.randrange(1 << 20) if k is None else k
     step = rng.choice([0.01, 0.01, 0.02, 1 / 64, 0.05])
     if fam == "normal":
         par = dict(mean=rng.choice([0.0, 1.0, -1.0]) * _lu(rng, 1e-2, 1e2), std=_lu(rng, 1e-3, 1e3))
@@ -106,7 +112,7 @@ def gen_case(rng, fam, npts):
         par = dict(mean=m, std=m * _lu(rng, 1e-2, 10))
         impls = ["re.func", "re.prior", "cl.vector", "cl.scalar"]
     elif fam == "uniform":
-        if rng.random() < 0.15:
+        if k % 4 == 3:
             par = dict(a=0.0, b=1.0, default=True)
             impls = ["re.func", "re.prior", "cl.op"]
         else:
@@ -114,14 +120,14 @@ def gen_case(rng, fam, npts):
             par = dict(a=a, b=a + _lu(rng, 1e-3, 1e3))
             impls = ["re.func", "re.prior", "cl.op"]
     elif fam == "laplace":
-        if rng.random() < 0.5:
+        if k % 2 == 0:
             par = dict(loc=0.0, scale=_lu(rng, 1e-2, 1e2))
             impls = ["re.func", "re.prior", "cl.op"]
         else:
             par = dict(loc=rng.choice([1.0, -1.0]) * _lu(rng, 1e-2, 10), scale=_lu(rng, 1e-2, 1e2))
             impls = ["cl.op"]
     elif fam == "invgamma":
-        u = rng.random()
+        u = (k % 4) / 4 + 0.01
         if u < 0.25:       # mode / mean parametrisation of the classic operator
             mode = _lu(rng, 1e-2, 1e2)
             mean = mode * (1 + _lu(rng, 0.05, 20))
@@ -880,7 +886,7 @@ def run(ctx):
     ship = 0
     for fam in FAMS:
         for k in range(per_fam):
-            c = gen_case(ctx.rng, fam, npts)
+            c = gen_case(ctx.rng, fam, npts, k)
             if fam == "invgamma" and "re.func" in c["impls"] and ship < ctx.n(3, 10):
                 c["ship_table"] = True
                 ship += 1
